@@ -192,6 +192,31 @@ func c15Handler(c *Ctx, p *Prog, m *Model) {
 		if !found {
 			probs = append(probs, "does not ask the underlying logger")
 		}
+		// decision function: the answer depends on nothing but "is the level one of the table's" - for a mapped
+		// level it is the logger's own answer on every path (no cached threshold, no shortcut)
+		for _, mapped := range []bool{true, false} {
+			t := walkDecision(en.Blocks[0], map[string]bool{"mapped": mapped}, func(cond ssa.Value) (string, bool) {
+				if ex, ok := cond.(*ssa.Extract); ok && ex.Index == 1 {
+					if lk, ok := ex.Tuple.(*ssa.Lookup); ok {
+						if g, ok := globalLoad(lk.X); ok && nm(g) == "mLogSlogLevelToLevel" {
+							return "mapped", true
+						}
+					}
+				}
+				return "", false
+			}, nil)
+			if t.Kind != "return" {
+				probs = append(probs, "the answer depends on a condition other than the level table ("+t.Kind+"): it can differ from the logger's own gating")
+				continue
+			}
+			if mapped {
+				v := resolveAlong(t.Instr.(*ssa.Return).Results[0], t.Path)
+				call, isCall := v.(*ssa.Call)
+				if !isCall || (invokeName(call) != "EnabledContext" && invokeName(call) != "Enabled") {
+					probs = append(probs, "for a level of the table the answer is "+m.valDesc(v)+", not the logger's own answer")
+				}
+			}
+		}
 		r.Check(len(probs) == 0, "R15.2", "handler4LogSlog.Enabled", p.FuncPos(en), "returns the logger's EnabledContext(ctx, mapped level)", strings.Join(probs, "; "))
 	}
 	// Handle
